@@ -135,6 +135,39 @@ def _reads_upvar(body, op, name):
     return name in origin_of_operand(body, op).upvar_names
 
 
+def _removal_restores_displaced(cx, b, rm):
+    """A removal of one key's entry is also sound when the entry is the stamp of a commit that is being rolled back and that
+    stamp displaced nothing: the function consults a record of displaced stamps for the same key on every path to the removal,
+    and on the sibling arm writes the displaced stamp back into the conflict map."""
+    key_o = origin_of_operand(b, rm.args[1]) if len(rm.args) > 1 else None
+    side = []
+    for c in b.calls:
+        if c.bb not in b.live or c is rm or not any(t.startswith("std::collections::HashMap::") for t in c.targets):
+            continue
+        if c.primary.split("::")[-1] not in ("remove", "get", "remove_entry", "get_mut"):
+            continue
+        o = origin_of_operand(b, c.args[0]) if c.args else None
+        if not o or "recent_writes" in o.field_names() or not o.field_names():
+            continue
+        side.append(c)
+    side_dom = [c for c in side if b.set_dominates([c.bb], rm.bb)]
+    if not side_dom:
+        return False
+    restores = []
+    for c in b.calls:
+        if c.bb not in b.live or c.primary.split("::")[-1] != "insert" or not any(t.startswith("std::collections::HashMap::") for t in c.targets):
+            continue
+        o = origin_of_operand(b, c.args[0])
+        if "recent_writes" not in o.field_names() or len(c.args) < 3:
+            continue
+        vo = origin_of_operand(b, c.args[2])
+        if any(x in side_dom for x in vo.calls):
+            restores.append(c)
+    cx.note("rollback: removal at %s is guarded by a displaced-stamp lookup (%d) with %d restoring insert(s)" % (rm.where(), len(side_dom), len(restores)))
+    # the restoring insert and the removal are alternatives (neither reaches the other)
+    return bool(restores) and all(rm.bb not in b.reachable_after([r.bb]) and r.bb not in b.reachable_after([rm.bb]) or b.in_cycle(rm.bb) for r in restores)
+
+
 @rule("C04", "C04.R5", "removals from the conflict map keep `every commit >= kept_since is recorded`")
 def r5(cx):
     n = 0
@@ -168,7 +201,9 @@ def r5(cx):
                 before = owner.set_dominates(raises, c.bb) if body is owner else True
                 after = owner.must_pass(c.bb, raises)[0] if body is owner else True
                 good = before or after
-            cx.check(good, "`%s` removes conflict-map entries (%s) and advances kept_since on the same path" % (owner.id, meth),
+            if not good and body is owner:
+                good = _removal_restores_displaced(cx, owner, c)
+            cx.check(good, "`%s` removes conflict-map entries (%s) and advances kept_since on the same path, or only forgets a stamp that displaced nothing" % (owner.id, meth),
                      "map-removal|%s.%s" % (owner.id, meth), c.where(),
                      "`%s` removes entries from the conflict map (%s) without advancing kept_since: an earlier "
                      "committer's stamp for that key can be forgotten, so a transaction that began before it passes check()" % (owner.id, meth))
